@@ -1,7 +1,7 @@
 (* C17/ProofsPolicy.v — POMDP::Policy: round trip of the repaired writer, and the refutation of
    the round trip for any writer whose number formatter is not injective (6 significant digits). *)
 From Coq Require Import List Arith NArith QArith Bool Lia.
-From AIT Require Import C17.Model C17.Spec C17.Proofs.
+From AIT Require Import C17.Model C17.Spec C17.Proofs C17.ProofsTrunc C17.ProofsFuel.
 Import ListNotations.
 Local Open Scope nat_scope.
 
@@ -13,8 +13,10 @@ Section PolicyRoundTrip.
   Variable readN : token -> option (N * option token).
   Variable at_tok : token.
   Variable split_at : token -> option (option token).
+  Variable tsize : token -> nat.
   Variable dbl : Q -> Prop.
   Variable u64 : N -> Prop.
+  Hypothesis H_size_pos : forall t, 1 <= tsize t.     (* a token has at least one character *)
   Hypothesis H_digits17 : forall d, dbl d -> read (show d) = Some (d, None).
   Hypothesis H_showN : forall n, u64 n -> readN (showN n) = Some (n, None).
   (* '@' is recognised, and no number starts with '@' *)
@@ -131,9 +133,12 @@ Section PolicyRoundTrip.
     lia.
   Qed.
 
+  Lemma length_le_size : forall is : list token, length is <= stream_size token tsize is.
+  Proof. induction is as [|t is IH]; cbn [length stream_size]; [lia|]. pose proof (H_size_pos t). lia. Qed.
+
   Lemma roundtrip_pomdp_policy_lemma : forall x dest, wf_pomdp_policy dbl u64 x ->
     ppS x = S -> ppA x = A -> ppO x = O -> ppS dest = S -> ppA dest = A -> ppO dest = O ->
-    read_pomdp_policy token read readN split_at (write_pomdp_policy token show showN at_tok x) dest
+    read_pomdp_policy token read readN split_at tsize (write_pomdp_policy token show showN at_tok x) dest
     = (x, ROk x []).
   Proof.
     intros x dest (rest & Hvf & Hwf & HH) HS HA HO HdS HdA HdO.
@@ -144,7 +149,120 @@ Section PolicyRoundTrip.
     - cbn [bind app commit]. rewrite <- HS, <- HA, <- HO.
       destruct x as [xS xA xO xH xVF]; cbn in *. subst. cbn [length]. rewrite Nat.sub_0_r. reflexivity.
     - cbn [length]. exact Hwf.
-    - rewrite app_length. cbn [length]. pose proof (total_le_length rest) as Hle. unfold vlist in *. lia.
+    - pose proof (total_le_length rest) as Hle.
+      pose proof (length_le_size (flat_map wvl rest ++ [at_tok])) as Hsz.
+      rewrite app_length in Hsz. cbn [length] in Hsz. unfold vlist in *. lia.
+  Qed.
+
+  (* ---------------- every truncation point ---------------- *)
+  Hypothesis H_read_left : forall t q t', read t = Some (q, Some t') -> tsize t' < tsize t.
+  Hypothesis H_readN_left : forall t n t', readN t = Some (n, Some t') -> tsize t' < tsize t.
+  Hypothesis H_at_left : forall t t', split_at t = Some (Some t') -> tsize t' < tsize t.
+
+  Lemma exact_ventry : forall oldH e, wf_ventry dbl u64 S A O oldH e ->
+    exact token (parse_ventry token read readN S A O oldH) (went e) e.
+  Proof.
+    intros oldH e (HlS & Hd & Hact & Hau & HlO & Hobs).
+    unfold parse_ventry, write_ventry.
+    change (showN (vAction e) :: map showN (vObs e)) with ([showN (vAction e)] ++ map showN (vObs e)).
+    apply exact_bind with (a := vValues e).
+    - rewrite <- HlS, <- flat_map_singleton. apply exact_rep with (P := dbl); [|assumption].
+      intros d Hdd. apply (exact_get_num token show read dbl H_digits17); assumption.
+    - apply exact_bind with (a := vAction e);
+        [apply (exact_get_N token showN readN u64 H_showN); assumption|].
+      replace (N.of_nat A <=? vAction e)%N with false by (symmetry; apply N.leb_gt; assumption).
+      rewrite <- (app_nil_r (map showN (vObs e))).
+      apply exact_bind with (a := vObs e).
+      + rewrite <- HlO, <- flat_map_singleton.
+        apply exact_rep with (P := fun o => (o < N.of_nat oldH)%N /\ u64 o); [|assumption].
+        intros o [Ho Hu]. split.
+        * intros rest. apply get_obs_show; assumption.
+        * intros n Hn. cbn [length] in Hn. replace n with 0 by lia. reflexivity.
+      + destruct e; apply exact_ret.
+  Qed.
+
+  Lemma chk_firstn_entries : forall oldH vl k, Forall (wf_ventry dbl u64 S A O oldH) vl ->
+    chk (firstn k (flat_map went vl)) = (false, firstn k (flat_map went vl)).
+  Proof.
+    intros oldH vl k HF. destruct vl as [|e vl]; [rewrite firstn_nil; reflexivity|].
+    destruct k as [|k]; [reflexivity|].
+    inversion HF as [|? ? (HlS & Hd & Hact & Hau & HlO & Hobs) _]; subst.
+    cbn [flat_map]. unfold write_ventry, check_at.
+    destruct (vValues e) as [|d vs] eqn:E; cbn [map app firstn].
+    - rewrite H_N_not_at by assumption. reflexivity.
+    - inversion Hd; subst. rewrite H_num_not_at by assumption. reflexivity.
+  Qed.
+
+  (* entries of one horizon cut anywhere (or complete but with nothing after them) *)
+  Lemma pp_entries_trunc : forall vl fuel prev cur oldH n,
+    Forall (wf_ventry dbl u64 S A O oldH) vl -> length vl < fuel ->
+    loop fuel S A O (firstn n (flat_map went vl)) prev cur oldH false = RFail.
+  Proof.
+    induction vl as [|e vl IH]; intros fuel prev cur oldH n HF Hfuel;
+      (destruct fuel as [|f]; [inversion Hfuel|]).
+    - rewrite firstn_nil. cbn [pp_loop].
+      assert (Hnil : parse_ventry token read readN S A O oldH [] = RFail).
+      { unfold parse_ventry. destruct S as [|S']; cbn [rep get_num bind get_N]; reflexivity. }
+      rewrite Hnil. reflexivity.
+    - inversion HF as [|? ? He HF']; subst. cbn [flat_map pp_loop]. rewrite firstn_app.
+      destruct (exact_ventry oldH e He) as [Hok Htr].
+      destruct (Nat.lt_ge_cases n (length (went e))) as [Hlt|Hge].
+      + replace (n - length (went e)) with 0 by lia. cbn [firstn]. rewrite app_nil_r.
+        rewrite Htr by assumption. reflexivity.
+      + rewrite firstn_all2 by assumption. rewrite Hok. cbn [bind].
+        rewrite (chk_firstn_entries oldH vl) by assumption.
+        apply IH; [assumption | cbn [length] in Hfuel; lia].
+  Qed.
+
+
+  Lemma pp_horizons_trunc : forall rest fuel prev cur oldH n,
+    wf_vlists dbl u64 S A O (length cur) rest -> total rest < fuel -> n < length (flat_map wvl rest ++ [at_tok]) ->
+    loop fuel S A O (firstn n (flat_map wvl rest ++ [at_tok])) prev cur oldH true = RFail.
+  Proof.
+    induction rest as [|vl rest IH]; intros fuel prev cur oldH n Hwf Hfuel Hn;
+      (destruct fuel as [|f]; [inversion Hfuel|]).
+    - cbn [flat_map app length] in Hn. replace n with 0 by lia. cbn [flat_map app firstn pp_loop check_at].
+      assert (Hnil : forall oh, parse_ventry token read readN S A O oh [] = RFail).
+      { intros oh. unfold parse_ventry. destruct S as [|S']; cbn [rep get_num bind get_N]; reflexivity. }
+      rewrite Hnil. reflexivity.
+    - cbn [wf_vlists] in Hwf. destruct Hwf as (Hne & HF & Hrest).
+      destruct vl as [|e vl]; [congruence|].
+      cbn [total length] in Hfuel.
+      assert (HW : (flat_map wvl ((e :: vl) :: rest) ++ [at_tok]) = flat_map went (e :: vl) ++ at_tok :: flat_map wvl rest ++ [at_tok]).
+      { cbn [flat_map]. rewrite <- !app_assoc. reflexivity. }
+      unfold vlist in *. rewrite HW in Hn. rewrite HW. rewrite firstn_app.
+      destruct (Nat.le_gt_cases n (length (flat_map went (e :: vl)))) as [Hle|Hgt].
+      + replace (n - length (flat_map went (e :: vl))) with 0 by lia. cbn [firstn]. rewrite app_nil_r.
+        rewrite pp_new_horizon by (apply (chk_firstn_entries (length cur)); assumption).
+        apply pp_entries_trunc; [assumption | cbn [length]; lia].
+      + rewrite firstn_all2 by lia.
+        destruct (n - length (flat_map went (e :: vl))) as [|k] eqn:Ek; [lia|]. cbn [firstn].
+        rewrite pp_new_horizon.
+        2:{ cbn [flat_map]. rewrite <- app_assoc. inversion HF; subst. eapply chk_entry; eassumption. }
+        rewrite pp_entries by (auto; lia). cbn [app].
+        apply IH; [exact Hrest | cbn [length]; lia |].
+        rewrite app_length in Hn. cbn [length] in Hn. lia.
+  Qed.
+
+  Lemma truncation_fails_pomdp_policy_lemma : forall x dest n, wf_pomdp_policy dbl u64 x ->
+    ppS x = S -> ppA x = A -> ppO x = O -> ppS dest = S -> ppA dest = A -> ppO dest = O ->
+    n < length (write_pomdp_policy token show showN at_tok x) ->
+    read_pomdp_policy token read readN split_at tsize
+      (firstn n (write_pomdp_policy token show showN at_tok x)) dest = (dest, RFail).
+  Proof.
+    intros x dest n (rest & Hvf & Hwf & HH) HS HA HO HdS HdA HdO Hn.
+    unfold read_pomdp_policy, parse_pomdp_policy, write_pomdp_policy, write_pomdp_policy_with in *.
+    rewrite HdS, HdA, HdO. rewrite Hvf in *. cbn [tl] in *. rewrite HS, HA, HO in Hwf.
+    match goal with |- context [pp_loop _ _ _ _ _ _ _ _ ?t [] _ _ _] => set (tr := t) end.
+    set (sz := stream_size token tsize tr).
+    pose proof (pp_loop_terminates token read readN split_at tsize H_size_pos H_read_left H_readN_left H_at_left
+                  (Datatypes.S sz) S A O tr [] [h0_entry S] 1 true (Nat.lt_succ_diag_r sz)) as Hterm.
+    pose proof (pp_loop_mono token read readN split_at (Datatypes.S sz) S A O tr [] [h0_entry S] 1 true Hterm
+                  (Datatypes.S sz + Datatypes.S (total rest)) ltac:(lia)) as Hmono.
+    rewrite <- Hmono.
+    assert (HR : loop (Datatypes.S sz + Datatypes.S (total rest)) S A O tr [] [h0_entry S] 1 true = RFail).
+    { apply pp_horizons_trunc; [exact Hwf | lia | exact Hn]. }
+    rewrite HR. reflexivity.
   Qed.
 End PolicyRoundTrip.
 
@@ -190,7 +308,9 @@ End PolicyRefuted.
 Lemma roundtrip_pomdp_policy_thm :
   forall (token : Type) (show : Q -> token) (read : token -> option (Q * option token))
          (showN : N -> token) (readN : token -> option (N * option token))
-         (at_tok : token) (split_at : token -> option (option token)) (dbl : Q -> Prop) (u64 : N -> Prop),
+         (at_tok : token) (split_at : token -> option (option token)) (tsize : token -> nat)
+         (dbl : Q -> Prop) (u64 : N -> Prop),
+  (forall t, 1 <= tsize t) ->
   (forall d, dbl d -> read (show d) = Some (d, None)) ->
   (forall n, u64 n -> readN (showN n) = Some (n, None)) ->
   split_at at_tok = Some None ->
@@ -198,7 +318,7 @@ Lemma roundtrip_pomdp_policy_thm :
   (forall n, u64 n -> split_at (showN n) = None) ->
   forall x dest, wf_pomdp_policy dbl u64 x ->
   ppS dest = ppS x -> ppA dest = ppA x -> ppO dest = ppO x ->
-  read_pomdp_policy token read readN split_at (write_pomdp_policy token show showN at_tok x) dest = (x, ROk x []).
+  read_pomdp_policy token read readN split_at tsize (write_pomdp_policy token show showN at_tok x) dest = (x, ROk x []).
 Proof.
   intros. eapply roundtrip_pomdp_policy_lemma with (dbl := dbl) (u64 := u64); eauto.
 Qed.
@@ -219,4 +339,27 @@ Lemma ex_pomdp_policy_wf : wf_pomdp_policy anyQ anyN ex_pomdp_policy.
 Proof.
   eexists. split; [reflexivity|]. cbn. unfold wf_ventry, anyQ, anyN. cbn.
   repeat split; try discriminate; repeat constructor; reflexivity.
+Qed.
+
+Lemma truncation_fails_pomdp_policy_thm :
+  forall (token : Type) (show : Q -> token) (read : token -> option (Q * option token))
+         (showN : N -> token) (readN : token -> option (N * option token))
+         (at_tok : token) (split_at : token -> option (option token)) (tsize : token -> nat)
+         (dbl : Q -> Prop) (u64 : N -> Prop),
+  (forall t, 1 <= tsize t) ->
+  (forall d, dbl d -> read (show d) = Some (d, None)) ->
+  (forall n, u64 n -> readN (showN n) = Some (n, None)) ->
+  split_at at_tok = Some None ->
+  (forall d, dbl d -> split_at (show d) = None) ->
+  (forall n, u64 n -> split_at (showN n) = None) ->
+  (forall t q t', read t = Some (q, Some t') -> tsize t' < tsize t) ->
+  (forall t n t', readN t = Some (n, Some t') -> tsize t' < tsize t) ->
+  (forall t t', split_at t = Some (Some t') -> tsize t' < tsize t) ->
+  forall x dest n, wf_pomdp_policy dbl u64 x ->
+  ppS dest = ppS x -> ppA dest = ppA x -> ppO dest = ppO x ->
+  n < length (write_pomdp_policy token show showN at_tok x) ->
+  read_pomdp_policy token read readN split_at tsize
+    (firstn n (write_pomdp_policy token show showN at_tok x)) dest = (dest, RFail).
+Proof.
+  intros. eapply truncation_fails_pomdp_policy_lemma with (dbl := dbl) (u64 := u64); eauto.
 Qed.
